@@ -93,7 +93,7 @@ def gen_case(r, pid=None):
     ncomp = r.choice([0, 1, 1, 2, 2, 3, 3, 4])
     comps = [dict(has_setup=r.random() < 0.7, has_enable=r.random() < 0.75, has_disable=r.random() < 0.75,
                   inherit=r.random() < 0.4, redeclare=r.random() < 0.5, preassign=r.random() < 0.3,
-                  sm=r.random() < 0.25) for _ in range(ncomp)]
+                  sm=r.random() < 0.25, hook=r.random() < 0.25) for _ in range(ncomp)]
     nfb_robot = r.choice([0, 0, 1, 2])
     fb_owners = [-1] * nfb_robot
     for i in range(ncomp):
